@@ -48,6 +48,8 @@ var bottom = http.HandlerFunc(func(w http.ResponseWriter, req *http.Request) {
 		code = 502
 	case "404":
 		code = 404
+	case "abort":
+		panic(http.ErrAbortHandler) // what a reverse proxy does when its backend dies in mid-response
 	}
 	w.WriteHeader(code)
 	_, _ = w.Write([]byte("ok"))
@@ -88,7 +90,14 @@ func newReq(src, code string) *http.Request {
 }
 
 func serve(h http.Handler, src, code string) op {
-	return func() { h.ServeHTTP(simkit.NewRecorder(), newReq(src, code)) }
+	return func() {
+		defer func() { // as net/http's server does for each request
+			if p := recover(); p != nil && p != http.ErrAbortHandler {
+				panic(p)
+			}
+		}()
+		h.ServeHTTP(simkit.NewRecorder(), newReq(src, code))
+	}
 }
 
 var srvURLs = []string{"http://a", "http://b", "http://c", "http://d"}
@@ -214,9 +223,37 @@ func buildTarget(rt *rapid.T) target {
 	}
 	switch kind {
 	case "connlimit":
-		cl, err := connlimit.New(bottom, extract, 2, connlimit.Logger(simkit.SlowLogger{}))
+		// the handler can be asked (X-Nest) to send a second request of the same source through the limiter while it
+		// holds its own slot: how the audit finds out, after everything has ended, whether both slots are back
+		var cl *connlimit.ConnLimiter
+		nest := http.HandlerFunc(func(w http.ResponseWriter, req *http.Request) {
+			if req.Header.Get("X-Nest") != "" {
+				rec := simkit.NewRecorder()
+				cl.ServeHTTP(rec, newReq(req.Header.Get("Src"), "200"))
+				w.Header().Set("X-Nested", fmt.Sprint(rec.Status))
+			}
+			bottom.ServeHTTP(w, req)
+		})
+		cl, err := connlimit.New(nest, extract, 2, connlimit.Logger(simkit.SlowLogger{}))
 		must(err)
-		return target{name: kind, h: cl, draw: func(rt *rapid.T) op { return serve(cl, drawSrc(rt), drawCode(rt)) }}
+		return target{name: kind, h: cl, draw: func(rt *rapid.T) op {
+			code := drawCode(rt)
+			if rapid.IntRange(0, 3).Draw(rt, "handler-aborts") == 0 {
+				code = "abort"
+			}
+			return serve(cl, drawSrc(rt), code)
+		}, audit: func() string {
+			for _, src := range []string{"10.0.0.1", "10.0.0.2", "10.0.0.3"} {
+				rec := simkit.NewRecorder()
+				req := newReq(src, "200")
+				req.Header.Set("X-Nest", "1")
+				cl.ServeHTTP(rec, req)
+				if rec.Status != 200 || rec.H.Get("X-Nested") != "200" {
+					return fmt.Sprintf("all requests have ended, yet of two overlapping requests of source %s (limit 2) the first is answered %d and the second %q: a decrement of its connection count was lost", src, rec.Status, rec.H.Get("X-Nested"))
+				}
+			}
+			return ""
+		}}
 	case "ratelimit":
 		tl, err := ratelimit.New(bottom, extract, rates(), ratelimit.Capacity(2), ratelimit.Logger(simkit.SlowLogger{}))
 		must(err)
